@@ -49,6 +49,43 @@ package driver
 //@   ensures [found] old(hasKey(*rs, key)) ==> result != nil && result.key == key && (exists j int :: 0 <= j && j < len(*rs) && (*rs)[j] == rec)
 //@   ensures [len] len(*rs) == old(len(*rs))
 
+// ---- C09 / C10: create-if-absent. Add is the test-and-set under Memory.Create that decides which of
+// several creators of one key wins: an existing key is refused and the list is left as it was.
+
+//@ func records.Less
+//@   props C10
+//@   requires noNil(rs) && 0 <= i && i < len(rs) && 0 <= j && j < len(rs) && (forall q int :: 0 <= q && q < len(rs) ==> rs[q].rls != nil)
+//@   ensures result == (rs[i].rls.Version < rs[j].rls.Version)
+
+//@ func (*records).Add
+//@   props C09 C10
+//@   requires rs != nil && noNil(*rs) && uniqueKeys(*rs) && (forall q int :: 0 <= q && q < len(*rs) ==> (*rs)[q].rls != nil) && (r != nil ==> r.rls != nil)
+//@   ensures [nil-record] r == nil ==> result == nil && *rs == old(*rs)
+//@   ensures [existing-key-refused] r != nil && old(hasKey(*rs, r.key)) ==> result == ErrReleaseExists && *rs == old(*rs) && (forall j int :: 0 <= j && j < len(*rs) ==> (*rs)[j] == old((*rs)[j]))
+//@   ensures [absent-key-added] r != nil && !old(hasKey(*rs, r.key)) ==> result == nil && len(*rs) == old(len(*rs)) + 1 && (exists j int :: 0 <= j && j < len(*rs) && (*rs)[j] == r)
+//@   ensures [keys-stay-unique] uniqueKeys(*rs) && noNil(*rs) && (forall q int :: 0 <= q && q < len(*rs) ==> (*rs)[q].rls != nil)
+//@   ensures [others-kept] forall k string :: old(hasKey(*rs, k)) ==> hasKey(*rs, k)
+//@   ensures [existing-lists-untouched] forall l records, i int :: !fresh(l) ==> l[i] == old(l[i])
+
+//@ func newRecord
+//@   props C09 C10
+//@   requires rls != nil && rls.Info != nil
+//@   ensures [fields] result != nil && fresh(result) && result.key == key && result.rls == rls
+
+//@ ghost func memNS(rls *rspb.Release) string = ite(rls.Namespace == "", "default", rls.Namespace)
+//@ ghost func memHas(mem *Memory, ns string, name string, key string) bool = has(mem.cache, ns) && has(mem.cache[ns], name) && hasKey(mem.cache[ns][name], key)
+//@ ghost func recsWF(rs records) bool = noNil(rs) && uniqueKeys(rs) && (forall q int :: 0 <= q && q < len(rs) ==> rs[q].rls != nil)
+//@ ghost func memWF(mem *Memory) bool = mem != nil && mem.cache != nil && (forall ns string :: has(mem.cache, ns) ==> mem.cache[ns] != nil) && (forall ns, name string :: has(mem.cache, ns) && has(mem.cache[ns], name) ==> recsWF(mem.cache[ns][name]))
+
+// The memory driver's create-if-absent (sequential contract; the mutex around it is what makes it
+// atomic between goroutines — the lock discipline itself is not decided here).
+//@ func (*Memory).Create
+//@   props C09 C10
+//@   requires memWF(mem) && rls != nil && rls.Info != nil
+//@   ensures [existing-key-refused] old(memHas(mem, memNS(rls), rls.Name, key)) ==> result == ErrReleaseExists
+//@   ensures [created] result == nil ==> memHas(mem, memNS(rls), rls.Name, key)
+//@   ensures [well-formed] memWF(mem)
+
 //@ ghost func lget(m labels, k string) string = ite(has(m, k), m[k], "")
 
 //@ func labels.keys
